@@ -4,6 +4,7 @@ import Driver.StoreDrv
 import Driver.ResumeDrv
 import Driver.IrcDrv
 import Driver.FsmDrv
+import Driver.ApiDrv
 /-! `driver <component>` reads one operation per line on stdin, prints one line per operation. -/
 
 partial def loopStateless (h : IO.FS.Stream) (out : IO.FS.Stream) (f : String → String) : IO Unit := do
@@ -28,6 +29,7 @@ def main (args : List String) : IO UInt32 := do
   | ["time"] => loopStateless stdin stdout Driver.TimeDrv.step; stdout.flush; return 0
   | ["codec"] => loopStateless stdin stdout Driver.StreamDrv.codecStep; stdout.flush; return 0
   | ["stream"] => loopState stdin stdout Driver.StreamDrv.streamStep Driver.StreamDrv.SState.init; stdout.flush; return 0
+  | ["api"] => loopStateless stdin stdout Driver.ApiDrv.step; stdout.flush; return 0
   | ["fsm"] => loopState stdin stdout Driver.FsmDrv.step ({} : Robust.Fsm.Node); stdout.flush; return 0
   | ["irc"] => loopState stdin stdout Driver.IrcDrv.step Driver.IrcDrv.init; stdout.flush; return 0
   | ["resume"] => loopStateless stdin stdout Driver.ResumeDrv.step; stdout.flush; return 0
